@@ -76,7 +76,7 @@ class C04(Prop):
     trusted_base = ["scipy's linear_sum_assignment is NOT modelled: oracle, certified per explored case by cert_okb / hall_okb (proved sound)",
                     "the harness' exact Hungarian method only proposes certificates; a wrong certificate fails the check, it cannot make a wrong output pass"]
     assumptions = ["square valuation profile, non-negative utilities, NaN = unacceptable"]
-    deadline = 20.0
+    deadline = 5.0
 
     def cases(self, rng, tier):
         vals = [None, 0.0, 1.0, 2.0]
@@ -117,13 +117,14 @@ class C04(Prop):
         else:
             A = np.array([[np.nan if x is None else x for x in row] for row in case["W"]], dtype=float)
         A0 = A.copy()
-        r = supervised(lambda: MaximumWeightMatching(zero_indexed=case["zi"]).scf(ValuationProfile.of(A)), self.deadline)
+        def go():
+            out = MaximumWeightMatching(zero_indexed=case["zi"]).scf(ValuationProfile.of(A))
+            return [int(x) for x in np.asarray(out).tolist()], (A.tobytes() != A0.tobytes())
+        # forked worker: the solver is C/C++ code, a hang there cannot be interrupted by a Python-level alarm
+        r = supervised_fork(go, self.deadline)
         if r[0] != "ok":
             return dict(status=r[0], err=(r[1] if len(r) > 1 else ""), msg=(r[2] if len(r) > 2 else ""))
-        try:
-            return dict(status="ok", out=[int(x) for x in np.asarray(r[1]).tolist()], mutated=(A.tobytes() != A0.tobytes()))
-        except Exception:  # noqa
-            return dict(status="malformed", msg=repr(r[1])[:100])
+        return dict(status="ok", out=r[1][0], mutated=r[1][1])
 
     def WF(self, case):
         return [[None if x is None else Fraction(x) for x in row] for row in case["W"]]
